@@ -585,7 +585,11 @@ where
 
         let position = token.span().start();
         let element = match token.kind() {
-            TokenKind::IdentifierName((Sym::CONSTRUCTOR, _)) if !r#static => {
+            // The PropName of `"constructor"() {}` is "constructor" as well.
+            TokenKind::IdentifierName((Sym::CONSTRUCTOR, _))
+            | TokenKind::StringLiteral((Sym::CONSTRUCTOR, _))
+                if !r#static =>
+            {
                 cursor.advance(interner);
                 let strict = cursor.strict();
                 cursor.set_strict(true);
